@@ -4,6 +4,8 @@ import gen
 import mutate
 import recogniser
 
+TWINS = ['invalid']      # harness/twins.py: which part of a twin text carries the difference
+
 N = {"quick": 2500, "thorough": 60000}
 
 
